@@ -11,14 +11,34 @@ from __future__ import annotations
 
 import cfcommon as cf
 from check_c18 import cf_mc
-from common import Outcome, workdir
+from common import NCPU, MachineryError, Outcome, cached, tlc, tlc_ok, tlc_violation, workdir
 
 PID = "C07"
+
+
+IDS_INVS = ["Sound", "Vocab"]
+
+
+def idstar_mc(wd, slice_=60):
+    """Design level: the reference ID* (IDStar.tla: make-cg, lines 1-9, sound partial version) answers only with terms
+    that denote P(event) in the functional family F, on every ordered 3-node ADMG x (all single atoms, a slice of pairs)."""
+    def go():
+        cfg = wd / "IDStarMachine.cfg"
+        cfg.write_text(f'SPECIFICATION Spec\nCONSTANTS\n  Family = "A3o"\n  RndN = 5\n  RndK = 4\n  Seeds = {{1, 2}}\n  MaxAtoms = 2\n'
+                       f"  Slice = {slice_}\n  Check = TRUE\n" + "".join(f"INVARIANT {i}\n" for i in IDS_INVS) + "CHECK_DEADLOCK FALSE\n")
+        r = tlc("IDStarMachine.tla", str(cfg), workers=NCPU, meta=wd / "idsmc", xmx="6g", timeout=5400)
+        v = tlc_violation(r)
+        if v:
+            raise MachineryError(f"IDStarMachine: {v} violated\n" + r["out"][-2500:])
+        tlc_ok(r, "IDStarMachine")
+        return {"family": "A3o", "pair_slice": slice_, "generated": r["generated"], "distinct": r["distinct"], "invariants": IDS_INVS}
+    return cached(f"ids-mc-{slice_}", go)
 
 
 def warm():
     wd = workdir("c07-warm")
     cf_mc(wd)
+    idstar_mc(wd)
     cf.gen(wd, "A3", 3, 2, 2, False)
 
 
@@ -33,16 +53,22 @@ def run(tier: str) -> int:
     out = Outcome(PID, tier)
     wd = workdir(PID)
     mc = cf_mc(wd)[0]
+    mc2 = idstar_mc(wd, 60 if tier == "quick" else 20)[0]
     vs, st, by_id, g = records(wd, tier)
     cf.report(out, vs, by_id, skip={"vocabulary"})
+    # diagnostic cross-tabulation with the reference ID*: where y0 is wrong, does the reference answer or refuse?
+    xtab = {}
+    for i, v in vs.items():
+        k = f"y0:{v['clause']}/ref:{v.get('ref')}"
+        xtab[k] = xtab.get(k, 0) + 1
     cov = cf.coverage(vs, by_id, st, g,
                       "one record = id_star(G, event) for a TLC-generated conjunction of 1-2 atoms over a 3-node ADMG (fixed "
                       "deterministic family: every single atom, a graph-dependent slice of all pairs); the returned expression, read "
                       "with the event's values, is evaluated by TLC in functional models with shared noise on all base assignments "
                       "and compared with P(event); non-trivial = distinct (graph, event) with an answer on a graph with a bidirected edge",
-                      {"design_mc": [mc]})
-    cov["states"] += mc["distinct"]
-    cov["transitions"] += mc["generated"]
+                      {"design_mc": [mc, mc2], "y0_outcome_vs_reference_idstar": xtab})
+    cov["states"] += mc["distinct"] + mc2["distinct"]
+    cov["transitions"] += mc["generated"] + mc2["generated"]
     return out.finish("model_checking", cov, [
         "fixed family (independent of VERIF_SEED) so that the listed known findings cannot hide a new violation: a listed input failing with another signature, or any unlisted input failing, is a violation",
         "family F: binary variables, 3-valued noise, one binary latent per bidirected edge, GF(32749); seeds fixed (1, 2) because signatures depend on them"])
